@@ -302,6 +302,55 @@ func ruleLookAheadGuard(r *Report, rule string) {
 					offBy = exprStr(c.cond)
 				}
 			}
+			// sign analysis over the branch facts at the call: whatever the spelling (`== 0` and `> 0` handled by
+			// earlier cases, a negated >=, ...), the child may be advanced only where its cached position
+			// compared strictly BEFORE the target
+			{
+				allowed := map[int]bool{-1: true, 0: true, 1: true}
+				matched := false
+				for _, fc := range g.GuardsOf(s.call) {
+					be, isB := ast.Unparen(fc.Expr).(*ast.BinaryExpr)
+					if !isB || fc.Tag != nil {
+						continue
+					}
+					if k, isC := intConst(info, be.Y); !isC || k != 0 {
+						continue
+					}
+					cc, isCall := ast.Unparen(resolveCopies(info, fi.Decl.Body, be.X)).(*ast.CallExpr)
+					if !isCall || len(cc.Args) != 1 || !targets[exprStr(ast.Unparen(cc.Args[0]))] {
+						continue
+					}
+					if f := callee(info, cc); f == nil || f.Name() != "Compare" {
+						continue
+					}
+					matched = true
+					for sgn := range allowed {
+						holds := false
+						switch be.Op {
+						case token.EQL:
+							holds = sgn == 0
+						case token.NEQ:
+							holds = sgn != 0
+						case token.LSS:
+							holds = sgn < 0
+						case token.LEQ:
+							holds = sgn <= 0
+						case token.GTR:
+							holds = sgn > 0
+						case token.GEQ:
+							holds = sgn >= 0
+						default:
+							holds = true
+						}
+						if holds != fc.Truth {
+							delete(allowed, sgn)
+						}
+					}
+				}
+				if matched && len(allowed) == 1 && allowed[-1] {
+					guarded, offBy, used = true, "", "the branch facts (position strictly before the target)"
+				}
+			}
 			detail := "child advance " + exprShort(s.call) + " is guarded by `" + used + "`: not reachable when the cached position is already at/after the target"
 			if !guarded {
 				detail = "child advance " + exprShort(s.call) + " can be reached although the searcher's cached position already compared at-or-after the target (or no such comparison exists): a clause sitting ON the target would be advanced again and lose its pending match"
